@@ -585,5 +585,423 @@ theorem accept_ok_perm (st : Settings) (rs rs' : List RawTxn) (hp : rs.Perm rs')
     obtain ⟨ts', s1', h', _⟩ := accept_perm st s1 rs' rs ts hp.symm h
     exact ⟨_, h'⟩
 
+/-! ### the class of a failure -/
+
+theorem seqO_err_mem {β : Type} : ∀ (os : List (Outcome β)), seqO os = .err → Outcome.err ∈ os := by
+  intro os
+  induction os with
+  | nil => intro h; simp [seqO] at h
+  | cons o tl ih =>
+    intro h
+    cases o with
+    | err => exact List.mem_cons_self
+    | undef => simp [seqO] at h
+    | ok b =>
+      simp only [seqO] at h
+      cases e : seqO tl with
+      | ok bs => rw [e] at h; cases h
+      | undef => rw [e] at h; cases h
+      | err => exact List.mem_cons_of_mem _ (ih e)
+
+theorem seqO_undef_mem {β : Type} : ∀ (os : List (Outcome β)), seqO os = .undef → Outcome.undef ∈ os := by
+  intro os
+  induction os with
+  | nil => intro h; simp [seqO] at h
+  | cons o tl ih =>
+    intro h
+    cases o with
+    | undef => exact List.mem_cons_self
+    | err => simp [seqO] at h
+    | ok b =>
+      simp only [seqO] at h
+      cases e : seqO tl with
+      | ok bs => rw [e] at h; cases h
+      | err => rw [e] at h; cases h
+      | undef => exact List.mem_cons_of_mem _ (ih e)
+
+/-- the status of a load: accepted / rejected / outside the modelled numeric domain -/
+def status {β : Type} (o : Outcome β) : Outcome Unit := o.map (fun _ => ())
+
+theorem journal_err_mem (st : Settings) (rs : List RawTxn) (h : acceptJournal st rs = .err) :
+    ∃ r ∈ rs, acc st r = .err := by
+  have := acceptJournal_pointwise st rs
+  rw [h] at this
+  have := seqO_err_mem _ this.symm
+  obtain ⟨r, hr, e⟩ := List.mem_map.mp this
+  exact ⟨r, hr, e⟩
+
+theorem journal_undef_mem (st : Settings) (rs : List RawTxn) (h : acceptJournal st rs = .undef) :
+    ∃ r ∈ rs, acc st r = .undef := by
+  have := acceptJournal_pointwise st rs
+  rw [h] at this
+  have := seqO_undef_mem _ this.symm
+  obtain ⟨r, hr, e⟩ := List.mem_map.mp this
+  exact ⟨r, hr, e⟩
+
+/-- **three-valued agreement.**  The status of a failing journal is that of its *first* failing transaction.
+    Permuted journals therefore fail together, and with the same class whenever the journal does not contain
+    both a transaction that is rejected on its own and one that is outside the modelled domain on its own. -/
+theorem status_perm (st : Settings) (rs rs' : List RawTxn) (hp : rs.Perm rs')
+    (hone : (∀ r ∈ rs, acc st r ≠ .undef) ∨ (∀ r ∈ rs, acc st r ≠ .err)) :
+    status (acceptJournal st rs) = status (acceptJournal st rs') := by
+  have hok := accept_ok_perm st rs rs' hp
+  cases h : acceptJournal st rs with
+  | ok r =>
+    obtain ⟨r', h'⟩ := hok.mp ⟨r, h⟩
+    simp [h', status, Outcome.map]
+  | err =>
+    cases h' : acceptJournal st rs' with
+    | ok r' => obtain ⟨r, h2⟩ := hok.mpr ⟨r', h'⟩; rw [h] at h2; cases h2
+    | err => rfl
+    | undef =>
+      obtain ⟨a, ha, ea⟩ := journal_err_mem st rs h
+      obtain ⟨b, hb, eb⟩ := journal_undef_mem st rs' h'
+      rcases hone with h1 | h1
+      · exact absurd eb (h1 b (hp.symm.subset hb))
+      · exact absurd ea (h1 a ha)
+  | undef =>
+    cases h' : acceptJournal st rs' with
+    | ok r' => obtain ⟨r, h2⟩ := hok.mpr ⟨r', h'⟩; rw [h] at h2; cases h2
+    | undef => rfl
+    | err =>
+      obtain ⟨a, ha, ea⟩ := journal_undef_mem st rs h
+      obtain ⟨b, hb, eb⟩ := journal_err_mem st rs' h'
+      rcases hone with h1 | h1
+      · exact absurd ea (h1 a ha)
+      · exact absurd eb (h1 b (hp.symm.subset hb))
+
+/-- both fail, whatever the classes -/
+theorem fail_perm (st : Settings) (rs rs' : List RawTxn) (hp : rs.Perm rs') :
+    (acceptJournal st rs).isOk = (acceptJournal st rs').isOk := by
+  have hok := accept_ok_perm st rs rs' hp
+  cases h : acceptJournal st rs with
+  | ok r => obtain ⟨r', h'⟩ := hok.mp ⟨r, h⟩; simp [h', Outcome.isOk]
+  | err =>
+    cases h' : acceptJournal st rs' with
+    | ok r' => obtain ⟨r, h2⟩ := hok.mpr ⟨r', h'⟩; rw [h] at h2; cases h2
+    | err => rfl
+    | undef => rfl
+  | undef =>
+    cases h' : acceptJournal st rs' with
+    | ok r' => obtain ⟨r, h2⟩ := hok.mpr ⟨r', h'⟩; rw [h] at h2; cases h2
+    | err => rfl
+    | undef => rfl
+
+/-! ## 4. the effect of an accepted journal on the charts, as sets -/
+
+/-- `q` is `p` or a non-empty proper prefix (ancestor) of it -/
+def Anc (q p : Path) : Prop := q = p ∨ (q ≠ [] ∧ q <+: p)
+
+/-- the charts of `s2` are those of `s` plus the names `A` (accounts, with their ancestors in lax mode),
+    `C` (commodities), `T` (tags); the switches and the synthetic parents are unchanged -/
+structure Eff (s s2 : Settings) (A : List Path) (C T : List String) : Prop where
+  flags : Flags s2 = Flags s
+  synthetic : s2.synthetic = s.synthetic
+  comms : ∀ c, c ∈ s2.commodities ↔ c ∈ s.commodities ∨ c ∈ C
+  tags : ∀ t, t ∈ s2.tags ↔ t ∈ s.tags ∨ t ∈ T
+  acctsStrict : s.strict = true → s2.accounts = s.accounts
+  acctsLax : s.strict = false → AncClosed s.accounts →
+    AncClosed s2.accounts ∧ ∀ q, q ∈ s2.accounts ↔ q ∈ s.accounts ∨ ∃ p ∈ A, Anc q p
+
+theorem Eff.refl (s : Settings) : Eff s s [] [] [] :=
+  ⟨rfl, rfl, by simp, by simp, fun _ => rfl, fun _ h => ⟨h, by simp⟩⟩
+
+theorem Eff.trans {s t u : Settings} {A A' : List Path} {C C' T T' : List String}
+    (h1 : Eff s t A C T) (h2 : Eff t u A' C' T') : Eff s u (A ++ A') (C ++ C') (T ++ T') := by
+  have hst : t.strict = s.strict := strict_of_flags h1.flags
+  refine ⟨h2.flags.trans h1.flags, h2.synthetic.trans h1.synthetic, ?_, ?_, ?_, ?_⟩
+  · intro c; rw [h2.comms, h1.comms]; simp [or_assoc]
+  · intro c; rw [h2.tags, h1.tags]; simp [or_assoc]
+  · intro hs; rw [h2.acctsStrict (hst.trans hs), h1.acctsStrict hs]
+  · intro hs hcl
+    obtain ⟨c1, m1⟩ := h1.acctsLax hs hcl
+    obtain ⟨c2, m2⟩ := h2.acctsLax (hst.trans hs) c1
+    refine ⟨c2, ?_⟩
+    intro q
+    rw [m2, m1]
+    constructor
+    · rintro ((h | ⟨p, hp, ha⟩) | ⟨p, hp, ha⟩)
+      · exact .inl h
+      · exact .inr ⟨p, List.mem_append_left _ hp, ha⟩
+      · exact .inr ⟨p, List.mem_append_right _ hp, ha⟩
+    · rintro (h | ⟨p, hp, ha⟩)
+      · exact .inl (.inl h)
+      · rcases List.mem_append.mp hp with hp | hp
+        · exact .inl (.inr ⟨p, hp, ha⟩)
+        · exact .inr ⟨p, hp, ha⟩
+
+theorem Eff.congr {s t : Settings} {A A' : List Path} {C C' T T' : List String} (h : Eff s t A C T)
+    (hA : ∀ x, x ∈ A' ↔ x ∈ A) (hC : ∀ x, x ∈ C' ↔ x ∈ C) (hT : ∀ x, x ∈ T' ↔ x ∈ T) : Eff s t A' C' T' := by
+  refine ⟨h.flags, h.synthetic, ?_, ?_, h.acctsStrict, ?_⟩
+  · intro c; rw [h.comms, hC]
+  · intro c; rw [h.tags, hT]
+  · intro hs hcl
+    obtain ⟨c1, m1⟩ := h.acctsLax hs hcl
+    refine ⟨c1, fun q => ?_⟩
+    rw [m1]
+    constructor
+    · rintro (h | ⟨p, hp, ha⟩)
+      · exact .inl h
+      · exact .inr ⟨p, (hA p).mpr hp, ha⟩
+    · rintro (h | ⟨p, hp, ha⟩)
+      · exact .inl h
+      · exact .inr ⟨p, (hA p).mp hp, ha⟩
+
+/-- `build_account_tree` adds only ancestors of the account -/
+theorem build_only (other : List Path) : ∀ (fuel : Nat) (target : List Path) (p q : Path),
+    q ∈ buildAccountTree other fuel target p → q ∈ target ∨ (q ≠ [] ∧ q <+: p) := by
+  intro fuel
+  induction fuel with
+  | zero => intro target p q h; simp only [buildAccountTree] at h; exact .inl h
+  | succ fuel ih =>
+    intro target p q h
+    simp only [buildAccountTree] at h
+    split at h
+    · exact .inl h
+    · split at h
+      · exact .inl h
+      · rename_i h1 _
+        have hpre : parentPath p <+: p := List.dropLast_prefix p
+        rcases ih _ _ _ h with hq | ⟨hq1, hq2⟩
+        · rcases List.mem_append.mp hq with hq | hq
+          · exact .inl hq
+          · have : q = parentPath p := by simpa using hq
+            subst this
+            refine .inr ⟨?_, hpre⟩
+            intro e
+            have := parentPath_length p
+            rw [e] at this
+            simp at this
+            omega
+        · exact .inr ⟨hq1, hq2.trans hpre⟩
+
+theorem goc_eff (s : Settings) (n c : String) (s1 : Settings)
+    (h : s.getOrCreateCommodity (some n) = .ok (c, s1)) : Eff s s1 [] [n] [] := by
+  obtain ⟨hacc, hsyn, htags, hfl, _, _⟩ := goc_other _ _ _ _ h
+  refine ⟨hfl, hsyn, ?_, by simp [htags], fun _ => hacc, fun _ hcl => ⟨by rw [hacc]; exact hcl, by simp [hacc]⟩⟩
+  simp only [Settings.getOrCreateCommodity] at h
+  intro x
+  (repeat' split at h) <;> first | (cases h; done) | (cases h; simp_all [mem_insertNew]; done) |
+    (cases h; simp [mem_insertNew]; constructor <;> (intro hh; rcases hh with hh | hh <;> simp_all))
+
+theorem tag_eff (s : Settings) (n b : String) (s1 : Settings)
+    (h : s.getOrCreateTag n = .ok (b, s1)) : Eff s s1 [] [] [n] := by
+  simp only [Settings.getOrCreateTag] at h
+  (repeat' split at h) <;> first | (cases h; done) |
+    (cases h; refine ⟨rfl, rfl, by simp, ?_, fun _ => rfl, fun _ hcl => ⟨hcl, by simp⟩⟩; intro t; simp; try (intro e; subst e; assumption))
+
+theorem gocta_eff (s : Settings) (p : Path) (c : String) (b : Path) (s2 : Settings)
+    (h : s.getOrCreateTxnAccount p c = .ok (b, s2)) : Eff s s2 [p] [c] [] := by
+  obtain ⟨c', s1, hc, hcase⟩ := gocta_state _ _ _ _ _ h
+  have e1 := goc_eff _ _ _ _ hc
+  obtain ⟨g, hp, _⟩ := gocta_grow _ _ _ _ _ h
+  have hacc1 : s1.accounts = s.accounts := (goc_other _ _ _ _ hc).1
+  rcases hcase with ⟨hs, rfl⟩ | ⟨hs, hfl, hsyn, htags, hcomm, hacc, _⟩
+  · refine ⟨e1.flags, e1.synthetic, e1.comms, e1.tags, e1.acctsStrict, ?_⟩
+    intro hl; rw [hs] at hl; cases hl
+  · refine ⟨g.flags, g.synthetic, ?_, ?_, ?_, ?_⟩
+    · intro x; rw [hcomm]; exact e1.comms x
+    · intro x; rw [htags]; exact e1.tags x
+    · intro hst; rw [hs] at hst; cases hst
+    · intro _ hcl
+      have hcl2 := g.closed hs hcl
+      refine ⟨hcl2, ?_⟩
+      intro q
+      constructor
+      · intro hq
+        rcases hacc with hacc | hacc <;> rw [hacc] at hq
+        · rcases build_only [] _ _ _ _ hq with h1 | h1
+          · exact .inl (hacc1 ▸ h1)
+          · exact .inr ⟨p, by simp, .inr h1⟩
+        · rcases build_only [] _ _ _ _ hq with h1 | h1
+          · rcases List.mem_append.mp h1 with h1 | h1
+            · exact .inl (hacc1 ▸ h1)
+            · have : q = p := by simpa using h1
+              exact .inr ⟨p, by simp, .inl this⟩
+          · exact .inr ⟨p, by simp, .inr h1⟩
+      · rintro (hq | ⟨p', hp', ha⟩)
+        · exact g.accounts q hq
+        · have : p' = p := by simpa using hp'
+          subst this
+          rcases ha with rfl | ⟨hne, hpre⟩
+          · exact hp
+          · exact closed_prefix (fun x => x ∈ s2.accounts) hcl2 p'.length p' q rfl hp hne hpre
+
+/-- the commodity of the posting itself (`""` when it has none) -/
+def postCommU : Option PostUnit → String
+  | none => ""
+  | some u => u.comm
+
+/-- the commodities one posting line registers: those of its value position and the posting's own -/
+def postingComms (rp : RawPosting) : List String := unitComms rp.unit ++ [postCommU rp.unit]
+
+theorem valuePosition_names (amount : Dec) (unit : Option PostUnit) (vp : VP)
+    (h : valuePosition amount unit = .ok vp) :
+    vp.postComm = postCommU unit ∧ vp.txnComm ∈ unitComms unit ++ [postCommU unit] := by
+  unfold valuePosition at h
+  split at h
+  · cases h; simp [postCommU]
+  · rename_i u
+    split at h
+    · rename_i hcl
+      split at h
+      · cases h
+      · cases h; simp [unitComms, hcl, postCommU]
+    · rename_i v hcl
+      (repeat' split at h) <;> first | (cases h; done) | (exact absurd h (Outcome.inexact_ne_ok _ _)) |
+        (cases h; simp [unitComms, hcl, postCommU])
+    · rename_i v hcl
+      (repeat' split at h) <;> first | (cases h; done) | (exact absurd h (Outcome.inexact_ne_ok _ _)) |
+        (cases h; simp [unitComms, hcl, postCommU])
+
+theorem registerUnit_eff (s : Settings) (u : Option PostUnit) (s2 : Settings) (h : registerUnit s u = .ok s2) :
+    Eff s s2 [] (unitComms u) [] := by
+  rcases registerUnit_inv s u s2 h with ⟨rfl, rfl⟩ | ⟨pu, c1, rfl, hcl, h1⟩ | ⟨pu, v, c1, s1, c2, rfl, hcl, h1, h2⟩
+  · exact Eff.refl _
+  · simpa [unitComms, hcl] using goc_eff _ _ _ _ h1
+  · have := (goc_eff _ _ _ _ h1).trans (goc_eff _ _ _ _ h2)
+    rcases hcl with hcl | hcl <;> simpa [unitComms, hcl] using this
+
+theorem handlePosting_eff (s : Settings) (rp : RawPosting) (p : Posting) (s2 : Settings)
+    (h : handlePosting s rp = .ok (p, s2)) :
+    Eff s s2 [rp.acct] (postingComms rp) [] ∧ p.txnComm ∈ postingComms rp := by
+  obtain ⟨s1, vp, a, h1, h2, h3, h4⟩ := (handlePosting_ok _ _ _ _).mp h
+  have := mkPosting_eq _ _ h4
+  subst this
+  obtain ⟨e1, e2⟩ := valuePosition_names _ _ _ h2
+  have := (registerUnit_eff _ _ _ h1).trans (gocta_eff _ _ _ _ _ h3)
+  rw [e1] at this
+  exact ⟨by simpa [postingComms] using this, e2⟩
+
+theorem mapMS_eff {α β : Type} (f : Settings → α → Outcome (β × Settings))
+    (A : α → List Path) (C T : α → List String)
+    (hf : ∀ s a b t, f s a = .ok (b, t) → Eff s t (A a) (C a) (T a)) :
+    ∀ (l : List α) (s : Settings) (bs : List β) (t : Settings), mapMS f s l = .ok (bs, t) →
+      Eff s t (l.flatMap A) (l.flatMap C) (l.flatMap T) := by
+  intro l
+  induction l with
+  | nil => intro s bs t h; simp only [mapMS] at h; cases h; exact Eff.refl _
+  | cons a tl ih =>
+    intro s bs t h
+    obtain ⟨b, s1, bs', h1, h2, rfl⟩ := (mapMS_cons_ok f s t a tl bs).mp h
+    simpa [List.flatMap_cons] using (hf s a b s1 h1).trans (ih s1 bs' t h2)
+
+/-- the accounts a transaction names: those of its posting lines and of the amount-less last one -/
+def txnAccts (r : RawTxn) : List Path :=
+  r.posts.flatMap (fun rp => [rp.acct]) ++ (match r.last with | some (a, _) => [a] | none => [])
+
+/-- the commodities a transaction registers -/
+def txnComms (r : RawTxn) : List String := r.posts.flatMap postingComms
+
+theorem acceptPostings_eff (s : Settings) (r : RawTxn) (all : List Posting) (s2 : Settings)
+    (h : acceptPostings s r.posts r.last = .ok (all, s2)) : Eff s s2 (txnAccts r) (txnComms r) [] := by
+  obtain ⟨p0, rest, s1, h1, hcase⟩ := (acceptPostings_ok _ _ _ _ _).mp h
+  have e1 := mapMS_eff handlePosting (fun rp => [rp.acct]) postingComms (fun _ => [])
+    (fun s a b t hh => (handlePosting_eff s a b t hh).1) _ _ _ _ h1
+  have e1' : Eff s s1 (r.posts.flatMap (fun rp => [rp.acct])) (txnComms r) [] :=
+    e1.congr (fun _ => Iff.rfl) (fun _ => Iff.rfl) (by simp)
+  rcases hcase with ⟨hl, _, rfl⟩ | ⟨a, cmt, sm, a', l, hl, _, hg, _, _⟩
+  · simpa [txnAccts, hl] using e1'
+  · have e2 := e1'.trans (gocta_eff _ _ _ _ _ hg)
+    -- the last posting's commodity is the first posting's transaction commodity, already registered
+    obtain ⟨rp, hrp, sa, sb, hh⟩ := mapMS_ok handlePosting r.posts s s1 (p0 :: rest) h1 p0 List.mem_cons_self
+    have hmem : p0.txnComm ∈ txnComms r :=
+      List.mem_flatMap.mpr ⟨rp, hrp, (handlePosting_eff _ _ _ _ hh).2⟩
+    refine e2.congr ?_ ?_ (by simp)
+    · intro x; simp [txnAccts, hl]
+    · intro x
+      simp only [List.mem_append, List.mem_singleton]
+      constructor
+      · exact fun hx => .inl hx
+      · rintro (hx | rfl)
+        · exact hx
+        · exact hmem
+
+def txnTagsL (r : RawTxn) : List String := txnTags r
+
+theorem acceptTags_eff (s : Settings) (tags : List String) (s2 : Settings) (h : acceptTags s tags = .ok s2) :
+    Eff s s2 [] [] tags := by
+  obtain ⟨⟨bs, h1⟩, _⟩ := (acceptTags_ok _ _ _).mp h
+  have := mapMS_eff (fun s t => s.getOrCreateTag t) (fun _ => []) (fun _ => []) (fun t => [t])
+    (fun s a b t hh => tag_eff s a b t hh) _ _ _ _ h1
+  exact this.congr (by simp) (by simp) (by simp)
+
+theorem acceptHeader_eff (s : Settings) (r : RawTxn) (s2 : Settings) (hh : acceptHeader s r.header = .ok s2) :
+    Eff s s2 [] [] (txnTags r) := by
+  obtain ⟨_, _, hcase⟩ := (acceptHeader_ok _ _ _).mp hh
+  rcases hcase with ⟨ht, rfl⟩ | ⟨ts, ht, h1⟩
+  · simpa [txnTags, ht] using Eff.refl _
+  · simpa [txnTags, ht] using acceptTags_eff _ _ _ h1
+
+theorem acceptTxn_eff (s : Settings) (r : RawTxn) (t : Txn) (s2 : Settings) (h : acceptTxn s r = .ok (t, s2)) :
+    Eff s s2 (txnAccts r) (txnComms r) (txnTags r) := by
+  obtain ⟨s1, ps, h1, h2, _, _⟩ := (acceptTxn_ok _ _ _ _).mp h
+  simpa using (acceptHeader_eff _ _ _ h1).trans (acceptPostings_eff _ _ _ _ h2)
+
+/-- **the final charts** of an accepted journal, as sets: the initial charts plus every commodity and tag the
+    journal names, plus (lax mode, from an ancestor-closed chart) every account it names with all its ancestors;
+    in strict mode the account chart is unchanged. -/
+theorem acceptJournal_eff (s : Settings) (rs : List RawTxn) (ts : List Txn) (s2 : Settings)
+    (h : acceptJournal s rs = .ok (ts, s2)) :
+    Eff s s2 (rs.flatMap txnAccts) (rs.flatMap txnComms) (rs.flatMap txnTags) :=
+  mapMS_eff acceptTxn txnAccts txnComms txnTags acceptTxn_eff _ _ _ _ h
+
+/-- same switches, same charts as sets -/
+structure SameCharts (s s' : Settings) : Prop where
+  flags : Flags s' = Flags s
+  accounts : ∀ p, p ∈ s'.accounts ↔ p ∈ s.accounts
+  synthetic : s'.synthetic = s.synthetic
+  commodities : ∀ c, c ∈ s'.commodities ↔ c ∈ s.commodities
+  tags : ∀ t, t ∈ s'.tags ↔ t ∈ s.tags
+
+theorem SameCharts.refl (s : Settings) : SameCharts s s := ⟨rfl, fun _ => Iff.rfl, rfl, fun _ => Iff.rfl, fun _ => Iff.rfl⟩
+
+theorem SameCharts.view {s s' : Settings} (h : SameCharts s s') : View s s' :=
+  ⟨h.flags, fun _ p => h.accounts p, fun _ n _ => h.commodities n, fun _ t => h.tags t⟩
+
+/-- the lookups the reports make do not tell such settings apart -/
+theorem SameCharts.getTxnAccount {s s' : Settings} (h : SameCharts s s') (p : Path) (c : String) :
+    s'.getTxnAccount p c = s.getTxnAccount p c := by
+  unfold Settings.getTxnAccount
+  by_cases h1 : c ∈ s.commodities <;> by_cases h2 : p ∈ s.accounts <;> by_cases h3 : p ∈ s.synthetic <;>
+    simp [h1, h2, h3, h.commodities, h.accounts, h.synthetic]
+
+theorem SameCharts.getCommodity {s s' : Settings} (h : SameCharts s s') (c : String) :
+    s'.getCommodity c = s.getCommodity c := by
+  unfold Settings.getCommodity
+  by_cases h1 : c ∈ s.commodities <;> simp [h1, h.commodities]
+
+theorem same_of_eff {s t t' : Settings} {A A' : List Path} {C C' T T' : List String}
+    (h : Eff s t A C T) (h' : Eff s t' A' C' T') (hcl : s.strict = false → AncClosed s.accounts)
+    (hA : ∀ x, x ∈ A ↔ x ∈ A') (hC : ∀ x, x ∈ C ↔ x ∈ C') (hT : ∀ x, x ∈ T ↔ x ∈ T') :
+    SameCharts t t' ∧ (s.strict = false → AncClosed t.accounts ∧ AncClosed t'.accounts) := by
+  refine ⟨⟨h'.flags.trans h.flags.symm, ?_, h'.synthetic.trans h.synthetic.symm, ?_, ?_⟩, ?_⟩
+  · intro p
+    by_cases hs : s.strict = true
+    · rw [h.acctsStrict hs, h'.acctsStrict hs]
+    · have hl : s.strict = false := by simpa using hs
+      rw [(h.acctsLax hl (hcl hl)).2, (h'.acctsLax hl (hcl hl)).2]
+      constructor
+      · rintro (hq | ⟨x, hx, ha⟩)
+        · exact .inl hq
+        · exact .inr ⟨x, (hA x).mpr hx, ha⟩
+      · rintro (hq | ⟨x, hx, ha⟩)
+        · exact .inl hq
+        · exact .inr ⟨x, (hA x).mp hx, ha⟩
+  · intro c; rw [h.comms, h'.comms, hC]
+  · intro c; rw [h.tags, h'.tags, hT]
+  · intro hl; exact ⟨(h.acctsLax hl (hcl hl)).1, (h'.acctsLax hl (hcl hl)).1⟩
+
+/-- **the final states of permuted journals agree on everything observable**: the switches, the synthetic parents,
+    and the account / commodity / tag charts as sets; in lax mode both account charts are ancestor-closed.
+    (`hcl`: in lax mode the initial account chart is ancestor-closed, as `Settings.ofConfig` builds it —
+    `C12.ofConfig_closed`.) -/
+theorem final_state_perm (st s₁ s₁' : Settings) (rs rs' : List RawTxn) (ts ts' : List Txn) (hp : rs.Perm rs')
+    (hcl : st.strict = false → AncClosed st.accounts)
+    (h : acceptJournal st rs = .ok (ts, s₁)) (h' : acceptJournal st rs' = .ok (ts', s₁')) :
+    SameCharts s₁ s₁' ∧ (st.strict = false → AncClosed s₁.accounts ∧ AncClosed s₁'.accounts) :=
+  same_of_eff (acceptJournal_eff _ _ _ _ h) (acceptJournal_eff _ _ _ _ h') hcl
+    (fun _ => (hp.flatMap_right _).mem_iff) (fun _ => (hp.flatMap_right _).mem_iff) (fun _ => (hp.flatMap_right _).mem_iff)
+
 end AcceptOrder
 end Tackler
